@@ -584,7 +584,8 @@ class VcfReader:
     @staticmethod
     def _extract_HP_phase(call: VariantRecordSample) -> Optional[VariantCallPhase]:
         hp = call.get("HP")
-        if hp is None or hp == (".",):
+        # A missing HP value reads as ('.',), or as (None,) when the field was written empty
+        if hp is None or hp == (".",) or hp == (None,):
             return None
         fields = [[int(x) for x in s.split("-")] for s in hp]
         for i in range(len(fields)):
